@@ -74,17 +74,17 @@ func verifC19FinAfterSync() {
 	}
 	r := verifNewRun(cfg)
 	defer r.cleanup()
-	evs := r.plan(verifrt.Bound("events", 3, 4), []int{verifEvMsg, verifEvTick, verifEvHup, verifEvTerm, verifEvStop, verifEvIntrude})
+	evs := r.plan(verifrt.Bound("events", 3, 5), []int{verifEvMsg, verifEvTick, verifEvHup, verifEvTerm, verifEvStop, verifEvIntrude})
 	r.start(r.newLogger("t"))
-	r.drive(evs, 1)
+	r.drive(evs, verifrt.Bound("symbolic-body-bytes", 1, 2))
 	verifrt.Observe("finished", r.nFin)
 	verifrt.Reach("a-message-was-finished", r.nFin > 0)
-	verifrt.Reach("two-finished-in-one-sync", r.nFin >= 2 && r.syncs == 1 && !cfg.gzip)
+	verifrt.Reach("two-finished-in-one-sync", r.nFin >= 2 && verifGhost(r.syncs == 1) && !cfg.gzip)
 	verifrt.Reach("gzip-finished", r.nFin > 0 && cfg.gzip)
 	verifrt.Reach("written-but-not-yet-finished", len(r.msgs) > r.nFin)
-	verifrt.Reach("handed-off-to-output-dir", r.links > 0 && r.nFin > 0)
-	verifrt.Reach("reopened-after-hup", r.nFin >= 2 && r.syncs >= 3)
-	verifrt.Reach("hand-off-name-taken-meanwhile", r.intrusions > 0 && r.links > 0 && r.nFin > 0)
+	verifrt.Reach("handed-off-to-output-dir", verifGhost(r.links > 0) && r.nFin > 0)
+	verifrt.Reach("reopened-after-hup", r.nFin >= 2 && verifGhost(r.syncs >= 3))
+	verifrt.Reach("hand-off-name-taken-meanwhile", r.intrusions > 0 && verifGhost(r.links > 0) && r.nFin > 0)
 }
 
 // VerifC19_Rotation: the router with rotation by size (the limit is crossed by the second record),
@@ -118,6 +118,7 @@ func verifC19Rotation() {
 	// a file in the way of the second revision / the second hour
 	way := verifrt.Choice("inTheWay", 4)
 	verifrt.Assume((mode == 2) == (way == 0 || way == 3) || way == 0) // revision collisions for size/interval, next-hour collision for date
+	verifrt.Assume(!(way == 2 && !cfg.workDir))                      // (without a work dir that is case 1 again)
 	switch way {
 	case 1:
 		r.preExisting(r.fileName(f, r.work, "00", 1), []byte("P1;"))
@@ -206,9 +207,38 @@ func verifC19BrokenFile() {
 	// (reached only if the logger did not exit)
 	verifrt.Reach("a-healthy-file-two-finished", r.breakBefore < 0 && r.nFin >= 2)
 	verifrt.Reach("b-healthy-file-gzip", r.breakBefore < 0 && r.nFin >= 1 && cfg.gzip)
-	verifrt.Reach("c-healthy-file-work-dir", r.breakBefore < 0 && r.nFin >= 1 && cfg.workDir && r.links > 0)
+	verifrt.Reach("c-healthy-file-work-dir", r.breakBefore < 0 && r.nFin >= 1 && cfg.workDir && verifGhost(r.links > 0))
 	verifrt.Reach("d-nothing-open-to-break", r.breakBefore >= 0 && !r.broke)
 	if !verifrt.Symbolic() {
 		verifrt.Reach("zz-fault-ends-in-exit", true)
 	}
+}
+
+// VerifC19_ManyPending: deeper router states - a run of up to max-in-flight+1 messages first
+// (so that up to max-in-flight-1 records are written but unfinished, or the buffer has just
+// filled and been flushed), then any two events. Same oracles; reaches the "finish a whole
+// batch after one fsync" loop with long batches.
+func VerifC19_ManyPending() { verifrt.Atomic(verifC19ManyPending) }
+
+func verifC19ManyPending() {
+	k := verifrt.Bound("max-in-flight", 4, 8)
+	cfg := verifCfg{
+		gzip:        verifrt.Choice("gzip", 2) == 1,
+		workDir:     verifrt.Choice("workdir", 2) == 1,
+		maxInFlight: k,
+	}
+	r := verifNewRun(cfg)
+	defer r.cleanup()
+	j := 1 + verifrt.Choice("prefix", k+1)
+	var evs []int
+	for i := 0; i < j; i++ {
+		evs = append(evs, verifEvMsg)
+	}
+	evs = append(evs, r.plan(2, []int{verifEvMsg, verifEvTick, verifEvHup, verifEvTerm, verifEvStop})...)
+	r.start(r.newLogger("t"))
+	r.drive(evs, 1)
+	verifrt.Observe("finished", r.nFin)
+	verifrt.Reach("batch-of-three-finished-after-one-fsync", r.nFin >= 4 && verifGhost(r.syncs == 2) && !cfg.gzip)
+	verifrt.Reach("buffer-filled-and-flushed", r.nFin == k+1 && len(r.msgs) == k+1)
+	verifrt.Reach("gzip-batch", r.nFin >= 4 && cfg.gzip && verifGhost(r.gzCloses <= 4))
 }
